@@ -338,7 +338,16 @@ func (a *List) M__rmul__(other Object) (Object, error) {
 }
 
 func (a *List) M__imul__(other Object) (Object, error) {
-	return a.M__mul__(other)
+	// *= repeats the list in place so that every alias sees the change
+	res, err := a.M__mul__(other)
+	if err != nil {
+		return nil, err
+	}
+	if newList, ok := res.(*List); ok {
+		a.Items = newList.Items
+		return a, nil
+	}
+	return res, nil
 }
 
 // Check interface is satisfied
